@@ -144,7 +144,7 @@ impl<'a> Recorder<'a> {
             }
         }
         e["obs"] = json!(obs);
-        if let Some(t) = e.get("text").and_then(|t| t.as_str()) {
+        if let Some(t) = e.get("msg").and_then(|t| t.as_str()) {
             if let Some(pos) = t.find("missed:") {
                 let ids: Vec<usize> = t[pos..]
                     .split('ν')
@@ -477,7 +477,9 @@ pub fn run(o: &DriveOpts, out: &mut dyn Write, tid: usize) -> Value {
             let mut cands = vec![];
             for v1 in &vw.present {
                 for (a, t) in w.g(0).kids(*v1).unwrap_or_default() {
-                    if !vw.present.contains(&t) && t < o.cap {
+                    let tg = vw.tag[v1];
+                    let fits = if tg < 2 { ngroups < 14 } else { vw.group_size[&tg] < 16 };
+                    if !vw.present.contains(&t) && t < o.cap && fits {
                         cands.push((*v1, a, t));
                     }
                 }
@@ -488,6 +490,90 @@ pub fn run(o: &DriveOpts, out: &mut dyn Write, tid: usize) -> Value {
                     Some(Call::Add { v: *t })
                 }
                 None => None,
+            }
+        } else if profile == "script" && r > 0.90 && {
+            let sn = w.g(0).snap();
+            (sn.next_v..sn.capacity).filter(|i| sn.slots[*i].as_ref().map(|s| s.tag == 0).unwrap_or(false)).count() >= 5
+        } {
+            // a small script over present vertices and fresh variables, in a random legal formatting, sometimes ending in
+            // a malformed command (a class that fails before any argument is looked at)
+            let mut prog: Vec<Value> = vec![];
+            let mut texts: Vec<String> = vec![];
+            let mut vars: Vec<String> = vec![];
+            let mut nlab: BTreeMap<String, usize> = BTreeMap::new();
+            let mut grouped_new = 0usize;
+            let nu = rng.gen_bool(0.5);
+            let lit = |v: usize, nu: bool| if nu { format!("ν{v}") } else { format!("{v}") };
+            let ncmd = rng.gen_range(1..5);
+            for _ in 0..ncmd {
+                let k = rng.gen_range(0..4);
+                if k == 0 || vars.is_empty() && vw.present.is_empty() {
+                    let name = format!("v{}", vars.len());
+                    vars.push(name.clone());
+                    prog.push(json!({"c": "ADD", "v": {"k": "var", "name": name}}));
+                    texts.push(format!("ADD(${name})"));
+                } else if k == 1 && !vars.is_empty() && !vw.present.is_empty() && ngroups + grouped_new < 13 {
+                    // bind a present vertex (if it has room for a label) to a variable, or a variable to a present vertex
+                    let var = vars.choose(&mut rng).unwrap().clone();
+                    let v = *vw.present.choose(&mut rng).unwrap();
+                    let a = labels.iter().take(o.n.max(1)).collect::<Vec<_>>().choose(&mut rng).map(|x| (*x).clone()).unwrap();
+                    let a_ok = a.is_ascii() && !a.contains('-');
+                    let room_v = vw.nlabels[&v].contains(&a) || vw.nlabels[&v].len() < o.n;
+                    let gs = vw.tag[&v];
+                    let fits = gs < 2 || vw.group_size[&gs] + vars.len() < 15;
+                    if !a_ok || !fits {
+                        continue;
+                    }
+                    if rng.gen_bool(0.5) && room_v {
+                        prog.push(json!({"c": "BIND", "v1": {"k": "lit", "id": v}, "v2": {"k": "var", "name": var}, "a": a}));
+                        texts.push(format!("BIND({}, ${var}, {a})", lit(v, nu)));
+                    } else if *nlab.get(&var).unwrap_or(&0) < o.n {
+                        *nlab.entry(var.clone()).or_default() += 1;
+                        prog.push(json!({"c": "BIND", "v1": {"k": "var", "name": var}, "v2": {"k": "lit", "id": v}, "a": a}));
+                        texts.push(format!("BIND(${var},{},{a})", lit(v, !nu)));
+                    } else {
+                        continue;
+                    }
+                    grouped_new += 1;
+                } else if k == 2 && (!vars.is_empty() || !vw.present.is_empty()) {
+                    let d = datas.choose(&mut rng).unwrap().clone();
+                    if d == "--" {
+                        continue;
+                    }
+                    let dtxt = if rng.gen_bool(0.5) { d.to_lowercase() } else { d.clone() };
+                    if !vars.is_empty() && rng.gen_bool(0.6) {
+                        let var = vars.choose(&mut rng).unwrap().clone();
+                        prog.push(json!({"c": "PUT", "v": {"k": "var", "name": var}, "d": d}));
+                        texts.push(format!("PUT(${var}, {dtxt})"));
+                    } else if !vw.present.is_empty() {
+                        let v = *vw.present.choose(&mut rng).unwrap();
+                        prog.push(json!({"c": "PUT", "v": {"k": "lit", "id": v}, "d": d}));
+                        texts.push(format!("PUT( {} ,{dtxt} )", lit(v, nu)));
+                    }
+                } else {
+                    let v = rng.gen_range(0..win);
+                    prog.push(json!({"c": "ADD", "v": {"k": "lit", "id": v}}));
+                    texts.push(format!("ADD ({})", lit(v, nu)));
+                }
+            }
+            if prog.is_empty() {
+                None
+            } else {
+                let mut fault_at = 0;
+                if rng.gen_bool(0.3) {
+                    fault_at = prog.len() + 1;
+                    prog.push(json!({"c": "ADD", "v": {"k": "lit", "id": 0}}));
+                    texts.push(["XADD(1)", "ADD(1", "ADD 1)", "add(1)", "BINDD(1,2,a)"][rng.gen_range(0..5)].to_string());
+                }
+                let sep = ["; ", ";\n", " ;\t# comment; with ) and $v9\n", ";;\n  "][rng.gen_range(0..4)];
+                let mut text = if rng.gen_bool(0.3) { "# header\n".to_string() } else { String::new() };
+                for (i, t) in texts.iter().enumerate() {
+                    text.push_str(t);
+                    if i + 1 < texts.len() || rng.gen_bool(0.7) || fault_at != 0 {
+                        text.push_str(sep);
+                    }
+                }
+                Some(Call::Deploy { text, prog: json!(prog), fault_at })
             }
         } else if profile == "slice" && r > 0.70 && !vw.present.is_empty() {
             let v = *vw.present.choose(&mut rng).unwrap();
